@@ -445,6 +445,14 @@ fn decode_scale(s: &mut Source, thorough: bool) -> Case {
     }
 }
 
+/// the scale case as a query program (used by C23)
+pub fn scale_program(s: &mut Source, thorough: bool) -> Program {
+    let c = decode_scale(s, thorough);
+    let mut body: Vec<Goal> = c.priors.iter().map(|(a, b)| Goal::Eq(a.clone(), b.clone())).collect();
+    body.push(Goal::Eq(c.u.clone(), c.v.clone()));
+    Program { nq: c.nv, body }
+}
+
 fn run_scale(bytes: &[u8], ctx: &Ctx) -> CaseInfo {
     let mut s = Source::new(bytes);
     let c = decode_scale(&mut s, ctx.tier == Tier::Thorough);
